@@ -354,6 +354,10 @@ def main_check(prop, tier, seed, collect=False):
     if n_crashed > nshards // 2:
         print(f"HARNESS-ERROR {n_crashed} of {nshards} shard processes died without a result")
         return 2
+    if exit_code == 0 and len(nontrivial) < 2:
+        # nothing non-trivial was decided (e.g. every case inconclusive): the run says nothing about the property
+        print(f"HARNESS-ERROR vacuous run: {evaluations} evaluations, {len(nontrivial)} non-trivial cases")
+        return 2
     mod = load_prop(prop)
     evidence = {
         "property_id": prop,
